@@ -103,9 +103,33 @@ def dim_class(n, b):
 
 
 @st.composite
-def shape3d(draw, bs, max_voxels=400_000, max_traces=None):
+def shape3d(draw, bs, max_voxels=400_000, max_traces=None, magnitudes="all"):
     """Cube shape for blockshape bs.  Size classes are drawn per axis; if the padded cube would be too
-    large, the classes of the largest axes are lowered (construction, not rejection)."""
+    large, the classes of the largest axes are lowered (construction, not rejection).
+
+    magnitudes: one cube in twenty is large in ONE respect and tiny in the others, so that counts pass the
+    places where an 8-, 15- or 16-bit quantity would wrap: "lines" = more than 256 or more than 1024 lines on one axis;
+    "all" = also more than 65 536 traces (256+ x 256+), and more than 32 767 / 65 535 samples per trace.  The size
+    limits do not apply to these (the padded cube stays below about 20 million voxels by construction)."""
+    if magnitudes and draw(st.integers(0, 19)) == 13:
+        kinds = []
+        if bs[2] <= 2048:
+            kinds += ["il", "xl"]
+        if magnitudes == "all" and bs[2] <= 64:
+            kinds += ["traces"]
+        if magnitudes == "all" and bs[0] * bs[1] <= 64:
+            kinds += ["samples", "samples"]
+        if kinds:
+            k = draw(st.sampled_from(kinds))
+            few = lambda b: draw(st.integers(2, min(6, max(2, b))))
+            many = lambda: draw(st.sampled_from([256, 256, 1024])) + draw(st.integers(1, 45))
+            if k == "il":
+                return (many(), few(bs[1]), min(few(bs[2]) + 2, 9))
+            if k == "xl":
+                return (few(bs[0]), many(), min(few(bs[2]) + 2, 9))
+            if k == "traces":
+                return (256 + draw(st.integers(1, 8)), 256 + draw(st.integers(1, 8)), draw(st.integers(2, 5)))
+            return (few(bs[0]), few(bs[1]), draw(st.sampled_from([32767, 32768, 32769, 33001, 65535, 65536, 65537, 66003])))
     cls = [draw(st.sampled_from(DIM_CLASSES)) for _ in range(3)]
     mult = {"lt": 1, "eq": 1, "gt": 2, "multi": 4}
     if bs[0] * bs[1] <= 16 and draw(st.integers(0, 3)) == 0:
